@@ -7,6 +7,7 @@ working concurrently on any number of origins, any interleaving of their
 matcher `isAllowed`.  Helper lemmas first.
 -/
 import Wpull.Robots
+import Proofs.Lemmas.Glob
 namespace Wpull.Robots
 open Wpull
 
@@ -405,6 +406,33 @@ theorem missing_allows {s' : St} {i : ItemId} (h : step ua s (.answer i .blank) 
 
 /-- the empty rule set allows everything; a matching agent group with a matching Disallow forbids -/
 theorem blank_allows_all (ua t : Str) : isAllowed [] ua t = true := rfl
+
+/-- **C20 (what a wildcard rule means)** A rule whose path contains `*` or ends in `$` applies to
+a target exactly when the target is  part₀ ++ gap ++ part₁ ++ … ++ partₙ  for the parts of the
+path between the `*`s — followed by anything unless the rule ends in `$` (GYM2008).  So the
+executable matcher used by the gate is the documented wildcard semantics, for every rule and target. -/
+theorem wildcard_rule_applies (r : Rule) (t : Str)
+    (hw : (r.path.contains 42 || r.path.getLast? == some 36) = true) :
+    (ruleVerdict r t = some r.allow ↔
+      GlobSpec (r.path.getLast? == some 36)
+        (splitOn1 (if (r.path.getLast? == some 36) = true then r.path.dropLast else r.path) 42) t) ∧
+    (ruleVerdict r t = some r.allow ∨ ruleVerdict r t = none) := by
+  unfold ruleVerdict
+  simp only [hw, if_true]
+  constructor
+  · rw [← globMatch_iff]
+    split <;> simp_all
+  · split <;> split <;> simp
+
+/-- a rule without wildcard applies exactly to the targets it is a prefix of; the blank path applies to
+everything and negates its verdict ("Disallow:" allows all) -/
+theorem plain_rule_applies (r : Rule) (t : Str)
+    (hw : (r.path.contains 42 || r.path.getLast? == some 36) = false) :
+    (ruleVerdict r t).isSome = true ↔ ∃ rest, t = r.path ++ rest := by
+  unfold ruleVerdict
+  simp only [hw, Bool.false_eq_true, if_false]
+  rw [← startsWith_iff]
+  split <;> simp_all
 
 /-! ## Non-vacuity -/
 
